@@ -234,6 +234,23 @@ def run(F, args, mem_init=None, max_steps=200000, enter=None, extern=None, keep=
                 if not cal.startswith(("llvm.dbg", "llvm.lifetime")):
                     if cal.startswith("llvm.expect"):
                         r = o[0]
+                    elif cal.startswith(("llvm.ctlz.", "llvm.cttz.", "llvm.ctpop.", "llvm.bswap.", "llvm.fshl.", "llvm.fshr.", "llvm.umin.", "llvm.umax.", "llvm.abs.")) and b:
+                        x = o[0]
+                        if isinstance(x, int):
+                            if cal.startswith("llvm.ctlz."):
+                                r = b - x.bit_length()
+                            elif cal.startswith("llvm.cttz."):
+                                r = b if x == 0 else (x & -x).bit_length() - 1
+                            elif cal.startswith("llvm.ctpop."):
+                                r = bin(x).count("1")
+                            elif cal.startswith("llvm.bswap."):
+                                r = int.from_bytes(x.to_bytes(b // 8, "little"), "big")
+                            elif cal.startswith(("llvm.umin.", "llvm.umax.")) and isinstance(o[1], int):
+                                r = min(x, o[1]) if "umin" in cal else max(x, o[1])
+                            elif cal.startswith(("llvm.fshl.", "llvm.fshr.")) and isinstance(o[1], int) and isinstance(o[2], int):
+                                k_ = o[2] % b
+                                cat = (x << b) | o[1]
+                                r = ((cat << k_) >> b) & m if cal.startswith("llvm.fshl.") else (cat >> k_) & m
                     else:
                         n = I.raw.get("nargs", len(o))
                         G = enter(cal) if enter is not None else None
